@@ -153,7 +153,7 @@ def random_cases(draw):
     ops = []
     for _ in range(draw(st.integers(1, 40))):
         op = draw(st.sampled_from(["create", "create", "create_data", "set", "set", "update", "set_attr"]))
-        o = {"op": op, "sid": draw(st.integers(0, len(sids) - 1))}
+        o = {"op": op, "sid": draw(st.integers(0, len(sids) - 1)), "as": draw(st.sampled_from(["str", "str", "str", "uri", "obj"]))}
         if op != "create":
             nk = 1 if op == "set_attr" else draw(st.integers(1, 3))
             o["data"] = {draw(st.sampled_from(KEYS)): draw(json_values) for _ in range(nk)}
@@ -251,17 +251,23 @@ def _evaluate(case) -> Outcome:
         if "share" in o:
             arg = shared_objs.setdefault(o["share"], dict(d))
             out.label("shared-dict-argument")
+        # the entity is named by its string, by its uri, or by a Sid object
+        target = s
+        if inf["t"] is not None and o.get("as") == "uri":
+            target = inf["t"] + ":" + s
+        elif inf["t"] is not None and o.get("as") == "obj":
+            target = Sid(s)
         if op == "create":
-            ok, r = call(writer.create, s)
+            ok, r = call(writer.create, target)
         elif op == "create_data":
-            ok, r = call(writer.create, s, data=arg)
+            ok, r = call(writer.create, target, data=arg)
         elif op == "update":
-            ok, r = call(writer.update, s, arg)
+            ok, r = call(writer.update, target, arg)
         elif op == "set":
-            ok, r = call(lambda: writer.set(s, **dict(d)))
+            ok, r = call(lambda: writer.set(target, **dict(d)))
         else:
             (k, v), = list(d.items())[:1]
-            ok, r = call(lambda: writer.set(s, k, v))
+            ok, r = call(lambda: writer.set(target, k, v))
         out.evaluations += 1
         what = f"step {n}: {op}({s!r}, {d})"
         if op in ("create", "create_data"):
